@@ -18,7 +18,7 @@ IMG = {"int": _I, "str": _S, "list[int]": frozenset([("n", "List", (_I,))]), "tu
        "SameK": frozenset([("n", "SameK", ())]), "OtherK": frozenset([("n", "OtherK", ())])}
 STYLES = ["NUMPYDOC", "GOOGLE", "REST"]
 # *_selfnames: explicit (non-receiver) parameters that are NAMED self / cls
-OWNERS = ["function", "method", "ctor", "function_selfnames", "static_selfnames"]
+OWNERS = ["function", "method", "ctor", "function_selfnames", "static_selfnames", "function_twinnames"]
 
 
 def docstring(style: str, params: list[tuple[str, str | None]], results: list[tuple[str | None, str | None]], ind: str) -> str:
@@ -57,6 +57,9 @@ def render(cid: int, style: str, owner: str, params: list[tuple[str | None, str 
     names = [f"p{i}" for i in range(len(params))]
     if owner.endswith("_selfnames"):
         names = ["self", "cls"][: len(params)]
+    if owner == "function_twinnames":
+        # names that differ only by a trailing / leading underscore
+        names = ["fmt", "fmt_", "_fmt"][: len(params)]
     sig = ", ".join(f"{n}: {h}" if h else n for n, (h, _) in zip(names, params, strict=True))
     rhints = [h for h, _ in results]
     if not results or all(h is None for h in rhints):
@@ -71,7 +74,7 @@ def render(cid: int, style: str, owner: str, params: list[tuple[str | None, str 
         return f'class K{cid}:\n    @staticmethod\n    def f{cid}({sig}){ret}:\n        """{docstring(style, pdoc, rdoc, "        ")}"""\n        ...\n'
     if owner == "ext_hint":
         return f'from collections.abc import Callable\nfrom typing import Any, Literal, Optional, Union\n\n\ndef f{cid}({sig}){ret}:\n    """{docstring(style, pdoc, rdoc, "    ")}"""\n    ...\n'
-    if owner in ("function", "function_selfnames"):
+    if owner in ("function", "function_selfnames", "function_twinnames"):
         return f'def f{cid}({sig}){ret}:\n    """{docstring(style, pdoc, rdoc, "    ")}"""\n    ...\n'
     if owner == "method":
         s2 = ", ".join(x for x in ("self", sig) if x)
